@@ -172,10 +172,12 @@ type computerFunc = func(*ComputedStyle, pr.KnownProp, pr.CssProperty) pr.CssPro
 
 // backgroundImage computes lenghts in gradient background-image.
 func backgroundImage(computer *ComputedStyle, _ pr.KnownProp, _value pr.CssProperty) pr.CssProperty {
-	value := _value.(pr.Images)
+	// the declared value is shared (stylesheet, initial values): never convert it in place
+	value := append(pr.Images(nil), _value.(pr.Images)...)
 	for i, image := range value {
 		switch gradient := image.(type) {
 		case pr.LinearGradient:
+			gradient.ColorStops = append([]pr.ColorStop(nil), gradient.ColorStops...)
 			for j, cl := range gradient.ColorStops {
 				if !cl.Position.IsNone() {
 					cl.Position = length_(computer, pr.DimOrS{Dimension: cl.Position}, -1, false).Dimension
@@ -184,6 +186,7 @@ func backgroundImage(computer *ComputedStyle, _ pr.KnownProp, _value pr.CssPrope
 			}
 			image = gradient
 		case pr.RadialGradient:
+			gradient.ColorStops = append([]pr.ColorStop(nil), gradient.ColorStops...)
 			for j, cl := range gradient.ColorStops {
 				if !cl.Position.IsNone() {
 					cl.Position = length_(computer, pr.DimOrS{Dimension: cl.Position}, -1, false).Dimension
@@ -447,7 +450,8 @@ func borderImageSlice(_ *ComputedStyle, _ pr.KnownProp, _value pr.CssProperty) p
 
 // Compute the “border-image-width“ property.
 func borderImageWidth(_ *ComputedStyle, _ pr.KnownProp, _value pr.CssProperty) pr.CssProperty {
-	values := _value.(pr.Values)
+	// the declared value is shared: work on a copy
+	values := append(pr.Values(nil), _value.(pr.Values)...)
 	switch len(values) {
 	case 1:
 		return values.Repeat(4)
@@ -461,7 +465,8 @@ func borderImageWidth(_ *ComputedStyle, _ pr.KnownProp, _value pr.CssProperty) p
 
 // Compute the “border-image-outset“ property.
 func borderImageOutset(computer *ComputedStyle, _ pr.KnownProp, _value pr.CssProperty) pr.CssProperty {
-	values := _value.(pr.Values)
+	// the declared value is shared: work on a copy
+	values := append(pr.Values(nil), _value.(pr.Values)...)
 	for i, value := range values {
 		if value.Unit == pr.Scalar {
 			values[i] = value
@@ -820,7 +825,8 @@ func gridTemplate(computer *ComputedStyle, _ pr.KnownProp, _value pr.CssProperty
 
 // Compute the “grid-auto-*“ properties.
 func gridAuto(computer *ComputedStyle, _ pr.KnownProp, _value pr.CssProperty) pr.CssProperty {
-	values := _value.(pr.GridAuto)
+	// the declared value is shared: work on a copy
+	values := append(pr.GridAuto(nil), _value.(pr.GridAuto)...)
 	for i, value := range values {
 		values[i] = computeGridDims(computer, value)
 	}
